@@ -268,15 +268,21 @@ func floatShape(text []byte) bool {
 var durUnits = map[string]int64{"ns": 1, "us": 1e3, "µs": 1e3, "μs": 1e3, "ms": 1e6, "s": 1e9, "m": 60e9, "h": 3600e9}
 var durComp = regexp.MustCompile(`\A([0-9]*)(?:\.([0-9]*))?([^0-9.]+)`)
 
-// a prefix of the components sums to exactly 2^63 ns and the next component is exactly 2^63 ns:
-// time.ParseDuration's uint64 accumulator d += v then wraps to 0.
+// a prefix of the components sums (each component truncated to whole ns, as ParseDuration
+// does) to 2^63 ns and the next component truncates to 2^63 ns: time.ParseDuration's uint64
+// accumulator d += v then wraps to 0.  A slack of one ns per component covers the float64
+// evaluation of fractions (e.g. "0.999999999999999999ns" counts as 1ns).
 func wrapShape(text []byte) bool {
 	s := string(text)
 	if s != "" && (s[0] == '-' || s[0] == '+') {
 		s = s[1:]
 	}
-	sum := new(big.Rat)
-	r63 := new(big.Rat).SetInt(two63)
+	sum := new(big.Int)
+	comps := int64(0)
+	near := func(x *big.Int, slack int64) bool {
+		d := new(big.Int).Sub(x, two63)
+		return d.CmpAbs(big.NewInt(slack)) <= 0
+	}
 	for s != "" {
 		m := durComp.FindStringSubmatch(s)
 		if m == nil || (m[1] == "" && m[2] == "") {
@@ -291,11 +297,13 @@ func wrapShape(text []byte) bool {
 			return false
 		}
 		v.Mul(v, new(big.Rat).SetInt64(u))
-		if sum.Cmp(r63) == 0 && v.Cmp(r63) == 0 {
+		fl := new(big.Int).Quo(v.Num(), v.Denom())
+		if comps > 0 && near(sum, comps) && near(fl, 1) {
 			return true
 		}
-		sum.Add(sum, v)
-		if sum.Cmp(r63) > 0 {
+		sum.Add(sum, fl)
+		comps++
+		if new(big.Int).Sub(sum, two63).Cmp(big.NewInt(comps)) > 0 {
 			return false
 		}
 		s = s[len(m[0]):]
@@ -391,7 +399,7 @@ func main() {
 			run(w, &jcase{Kind: "parse", Type: ty, Text: intsOf([]byte(s))})
 		}
 	}
-	durTexts := []string{"9223372036854775808ns9223372036854775808ns", "-9223372036854775808ns9223372036854775808ns1ns", "9223372036854775808ns", "-9223372036854775808ns",
+	durTexts := []string{"9223372036854775808ns9223372036854775808ns", "2562047h47m16.854775808s9223372036854775808.945834055ns", "+9223372036854775807ns1ns9223372036854775808.399ns", "9223372036854775807.999999999999999999ns9223372036854775808ns", "-9223372036854775808ns9223372036854775808ns1ns", "9223372036854775808ns", "-9223372036854775808ns",
 		"9223372036854775807ns", "2562047h47m16.854775807s", "2562047h47m16.854775808s", "-2562047h47m16.854775808s", "2562047h47m16.854775808s2562047h47m16.854775808s",
 		"0", "+0", "-0", "", "-", "+", ".", ".s", "1", "1.s", ".1s", "1..s", "1s ", " 1s", "1 s", "1e3s", "0x1s", "1d", "1hh", "1µs", "1μs", "1us", "1µ", "1.5h0.000000001s",
 		"0.999999999999999999ns", "0.9999999999999999999ns", "1.0000000000000000000000001h", "9223372036854775.808us", "9223372036854.775808ms", "9223372036.854775808s",
@@ -516,7 +524,7 @@ func main() {
 		if r.IntN(12) == 0 { // a prefix summing to 2^63
 			sb.WriteString([]string{"9223372036854775808ns", "2562047h47m16.854775808s", "9223372036854775807ns1ns", "9223372036854775.808us"}[r.IntN(4)])
 			if r.IntN(2) == 0 {
-				sb.WriteString([]string{"9223372036854775808ns", "9223372036854775.808us", "9223372036854775808.0ns", "9223372036854775807ns"}[r.IntN(4)])
+				sb.WriteString([]string{"9223372036854775808ns", "9223372036854775.808us", "9223372036854775808.0ns", "9223372036854775807ns", "9223372036854775808.73ns", "9223372036854775807.999999999999999999ns"}[r.IntN(6)])
 			}
 			n = r.IntN(2)
 		}
